@@ -108,3 +108,12 @@ Definition setop_operand_row_ok (r : cls * string) : bool :=
 Lemma setop_operands_agree : forallb setop_operand_row_ok x_setop_operands = true
   /\ (20 <=? List.length x_setop_operands)%nat = true.
 Proof. vm_compute. split; reflexivity. Qed.
+
+(* ---- Round 6: a statement started through ANY class-method factory of a query class (from_, select, with_, into,
+        Table(..).select/update, Tables(..), update; enumerated from the source) is a builder of that class's dialect
+        and paginates like it ---- *)
+Definition route_row_ok (r : cls * kind * string * bool * string) : bool :=
+  let '(c, k, _, same_builder, tail) := r in
+  same_builder && String.eqb (render_page c k (pg (Some 7%Z) (Some 5%Z))) tail.
+Lemma routes_agree : forallb route_row_ok x_routes = true /\ (150 <=? List.length x_routes)%nat = true.
+Proof. vm_compute. split; reflexivity. Qed.
